@@ -55,6 +55,38 @@ func harnessOverlay(importPath string, files []string) (map[string][]byte, strin
 	}
 	ov[filepath.Join(dir, "zz_vx_rt.go")] = []byte(strings.Replace(string(rt), "package PKG", "package "+pkgName, 1))
 	for _, f := range files {
+		if strings.HasPrefix(f, "gen:") {
+			parts := strings.Split(f, ":")
+			var body, imports string
+			var err error
+			switch parts[1] {
+			case "astkinds":
+				qual := ""
+				if len(parts) > 2 {
+					qual = parts[2]
+				}
+				body, err = genASTHelpers(filepath.Join(repoRoot, "ast"), qual)
+				if qual != "" {
+					imports = "import \"" + repoModule + "/ast\"\n\n"
+				}
+			case "corpus":
+				maxFiles, maxBytes := 40, 4000
+				if len(parts) > 3 {
+					fmt.Sscan(parts[3], &maxFiles)
+				}
+				if len(parts) > 4 {
+					fmt.Sscan(parts[4], &maxBytes)
+				}
+				body, err = genCorpus(parts[2], maxFiles, maxBytes)
+			default:
+				err = fmt.Errorf("unknown generator %q", f)
+			}
+			if err != nil {
+				return nil, "", err
+			}
+			ov[filepath.Join(dir, "zz_vx_gen_"+parts[1]+".go")] = []byte("package " + pkgName + "\n\n" + imports + body)
+			continue
+		}
 		src, err := os.ReadFile(filepath.Join(verifRoot, "harness", f))
 		if err != nil {
 			return nil, "", err
